@@ -1320,11 +1320,17 @@ class SList:
     def remove(self, v):
         t = self.unwrap(v)
         u = z3.Unit(t)
-        if not ctx().decide(z3.Contains(self.seq, u)):
+        c = ctx()
+        if not c.decide(z3.Contains(self.seq, u)):
             raise ValueError("list.remove(x): x not in list")
-        k = z3.IndexOf(self.seq, u, 0)
+        # first occurrence j, introduced as a fresh index with its defining properties (easier for the
+        # solvers than seq.indexof): seq[j] == v and no earlier element equals v
         n = z3.Length(self.seq)
-        self.seq = z3.simplify(z3.Concat(z3.SubSeq(self.seq, 0, k), z3.SubSeq(self.seq, k + 1, n - k - 1)))
+        j = z3.Int(c.fresh_name("rm"))
+        m = z3.Int(c.fresh_name("rmq"))
+        c.assume(z3.And(j >= 0, j < n, self.seq[j] == t))
+        c.assume(z3.ForAll([m], z3.Implies(z3.And(m >= 0, m < j), self.seq[m] != t)))
+        self.seq = z3.simplify(z3.Concat(z3.SubSeq(self.seq, 0, j), z3.SubSeq(self.seq, j + 1, n - j - 1)))
 
     def __getitem__(self, i):
         n = z3.Length(self.seq)
